@@ -136,7 +136,7 @@ func Main(profile string) {
 		genAsy()
 		return
 	}
-	nStep, nBig, nE2E, nPre := 900, 25, 60, 60
+	nStep, nBig, nE2E, nPre := 900, 15, 60, 60
 	if cfg.Thorough() {
 		nStep, nBig, nE2E, nPre = 25000, 600, 1500, 1500
 	}
@@ -155,7 +155,7 @@ func Main(profile string) {
 		}
 		for i := 0; i < nReg; i++ {
 			r := rng.Fork()
-			reg := "bbbabbbc"[i%8] // the a/c regimes carry one 65535-octet frame each
+			reg := "bbbbbbbabbbbbbbc"[i%16] // the a/c regimes carry one 65535-octet frame each
 			emit("reg", append([]string{"STEP"}, GenRegime(r, reg)...))
 			cfg.Count("regime=" + string(reg))
 		}
@@ -172,6 +172,10 @@ func Main(profile string) {
 		for i := 0; i < nOS; i++ {
 			r := rng.Fork()
 			emit("oset", append([]string{"STEP"}, GenOtherSettings(r, i)...))
+		}
+		for i := 0; i < 1; i++ {
+			r := rng.Fork()
+			emit("swo", append([]string{"STEP"}, GenSweepOrder(r, i)...))
 		}
 		for i := 0; i < 12; i++ {
 			r := rng.Fork()
